@@ -35,6 +35,7 @@ type HarnessCfg struct {
 	AllocPolicy   bool     `json:"alloc_policy"`   // C04 allocation obligations
 	YieldOnUnlock  bool    `json:"yield_on_unlock"`
 	YieldOnSyncMap bool    `json:"yield_on_syncmap"`
+	YieldOnStore   bool    `json:"yield_on_store"`
 	ExpectReach   []string `json:"expect_reach"`
 	Samples       int      `json:"samples"`
 	Env           map[string]string `json:"env"` // harness parameters readable through verif.Param
@@ -142,6 +143,9 @@ type pathState struct {
 	known        []knownRegion
 	fpMuls       int
 	inputLen     int
+	tempDirs     int
+	envCalls     int // environment (store/file) calls made on this path
+	crashAt      int // simulated kill at this environment call (0 = none)
 	abs          *absState
 	model        Model // cached model of the current path condition (nil = none)
 }
@@ -324,6 +328,11 @@ func (in *Interp) verifIntrinsic(name string) intrinsic {
 				in.registerInput(inputVar{name: "param!" + nm, kind: "scalar", term: mkBV(64, uint64(v))})
 			}
 			return v
+		}
+	case "TempDir":
+		return func(in *Interp, fr *frame, args []value) value {
+			in.run.tempDirs++
+			return fmt.Sprintf("/model/%s-%d", concStr(args[0], "name"), in.run.tempDirs)
 		}
 	case "Symbolic":
 		return func(in *Interp, fr *frame, args []value) value { return true }
